@@ -455,9 +455,6 @@ func genC05(c *Ctx) {
 		g := mk(2000+r.Intn(16000), uint8(r.Intn(2)))
 		addBlobCase(g, pick(r, thresholds), i%2 == 0)
 	}
-	// a zero threshold divides by zero in SubTreeWidth (outside the property's domain; the model says fault)
-	c.add("subtreeroots", hx(nss[0]), "0", "nil", hx(r.Bytes(10)), "0")
-
 	// (c) + (b): squares
 	maxes := []int{2, 4, 8, 16, 16}
 	if c.tier == "thorough" {
@@ -481,6 +478,12 @@ func genC05(c *Ctx) {
 		for v := 0; v < placements3; v++ {
 			max := pick(r, maxes)
 			txs := c05Case(r, max, &focus)
+			thr := thr
+			if v == 0 && i%8 == 7 {
+				// equal data lengths, version 0 then 1, at a step of the subtree width
+				txs, thr, max = sameLengthPairCase(r, nss, false, max)
+				c.count("same_length_v0_v1_pair")
+			}
 			sq, kept, err := square.Build(rawsOf(txs), max, thr)
 			wit := map[string]any{"max": max, "thr": thr, "focus_version": int(focus.ver), "focus_len": len(focus.data), "txs": len(txs)}
 			if !c.check(err == nil, "Build", "error", wit) {
@@ -579,4 +582,3 @@ func genC05(c *Ctx) {
 	}
 	c.dist["model_leaf_hash_estimate"] = spent
 }
-
